@@ -33,7 +33,7 @@ PROPS = {
         "trusted": ["known findings: returns-commodity-filter-counts-filtered-flows, returns-meaningless-when-start-value-plus-inflow-vanishes, returns-meaningless-when-start-value-is-rounding-residue"],
     },
     "C16": {
-        "lean": ["Knut.Properties.C16", "Knut.FactsAgree.TransProcess", "Knut.FactsAgree.TransJPrinter", "Knut.FactsAgree.TransJPrinter2"],
+        "lean": ["Knut.Properties.C16", "Knut.FactsAgree.TransProcess", "Knut.FactsAgree.TransJPrinter", "Knut.FactsAgree.TransJPrinter2", "Knut.FactsAgree.TransBeancount"],
         "level": "proof",
         "claim": "PARTIAL proof (one clause is false on the code and recorded as known finding) + byte-exact correspondence. Lean theorems over the model of `knut transcode -v V` "
                  "(Sort, ComputePrices, check, Valuate with daily value adjustments, then beancount.Transcode as an entry list and its text), for ALL journals and valuation commodities on which "
